@@ -16,9 +16,9 @@
 (* CleanupOnUndetermined = TRUE is the committer as it was at the pinned commit: a prewrite whose    *)
 (* answer is "result undetermined" makes Commit return 'undetermined' but the keys are still rolled  *)
 (* back by the deferred cleanup (TLC: OneOutcome fails - a resolver commits one key, the cleanup     *)
-(* rolls back another).  FALSE is the repaired committer (2e2f99a).                                  *)
+(* rolls back another).  FALSE is the repaired committer (2e2f99a).  NonLockingCheck: see CheckFails. *)
 EXTENDS Integers, FiniteSets, TLC
-CONSTANTS Keys, P, MaxTs, MaxRounds, CleanupOnUndetermined
+CONSTANTS Keys, P, MaxTs, MaxRounds, CleanupOnUndetermined, NonLockingCheck
 ASSUME P \in Keys
 S == 1                                   \* W's start ts
 None == 0
@@ -65,6 +65,13 @@ PrewriteUndetermined(k) ==
   /\ sent' = sent \cup {k} /\ cstate' = "undetermined"
   /\ lock' = [lock EXCEPT ![k] = IF @ = 0 /\ CanLock(k) THEN MinCommit(k) ELSE @]
   /\ UNCHANGED <<write, maxts, tso, known, cts, rstate, rmin, rleft, rdec, rounds, rd, obs>>
+\* NonLockingCheck = TRUE: the transaction also carries an existence check on a key it does not lock (an optimistic insert
+\* of a presumed-absent key that is deleted again).  The check is not a secondary, it can fail whenever the committer gets to
+\* it - also after every other key is locked - and makes Commit return a definite error.  This is async commit as it was
+\* used at the pinned commit for such transactions (TLC: FailHolds fails); since c05f2e6 they do not use async commit.
+CheckFails ==
+  /\ NonLockingCheck /\ cstate = "prewriting" /\ cstate' = "failed"
+  /\ UNCHANGED <<lock, write, maxts, tso, sent, known, cts, rstate, rmin, rleft, rdec, rounds, rd, obs>>
 \* every answer is in: the commit ts is the largest min-commit-ts, the application is told "committed"
 Ack ==
   /\ cstate = "prewriting" /\ \A k \in Keys : known[k] > 0
@@ -128,7 +135,7 @@ Read(k) ==
      ELSE obs' = obs \cup {<<k, rd, write[k] > 0 /\ write[k] <= rd>>}
   /\ UNCHANGED <<lock, write, tso, cstate, sent, known, cts, rstate, rmin, rleft, rdec, rounds, rd>>
 Next == \/ \E k \in Keys : PrewriteOK(k) \/ PrewriteRefused(k) \/ PrewriteUndetermined(k) \/ CommitKey(k) \/ CleanupKey(k)
-        \/ Ack \/ Crash
+        \/ Ack \/ Crash \/ CheckFails
         \/ RStart \/ RDecide \/ REnd \/ \E k \in Keys : RCheck(k) \/ RResolve(k)
         \/ ReaderBegin \/ \E k \in Keys : Read(k)
 Spec == Init /\ [][Next]_vars
